@@ -106,6 +106,40 @@ func TestVerifC14(t *testing.T) {
 			}
 		}
 	})
+	// ---- the same behind an outer middleware with a verifier of its own (valid credentials only: the
+	// outer one turns the others away)
+	stacked := env.NewCases(res, "stacked-middlewares")
+	synctest.Test(t, func(t *testing.T) {
+		c14Stacked = true
+		defer func() { c14Stacked = false }()
+		now := time.Now()
+		var valid []c14Header
+		for _, h := range c14Headers() {
+			if h.valid == 1 && len(valid) < 2 {
+				valid = append(valid, h)
+			}
+		}
+		for _, h := range valid {
+			for _, vo := range []string{"ok", "invalid", "oauth", "other", "nilinfo", "invalid+info", "other+info", "invalid-empty-message"} {
+				for _, req := range [][]string{nil, {"a"}, {"a", "b"}} {
+					for _, gr := range [][]string{nil, {"a"}, {"b", "c", "a"}} {
+						for _, ex := range []struct {
+							name string
+							at   time.Time
+						}{{"zero", time.Time{}}, {"now-1h", now.Add(-time.Hour)}, {"now+1h", now.Add(time.Hour)}} {
+							for _, allowMissing := range []bool{false, true} {
+								idx, mine := stacked.Next()
+								if !mine {
+									continue
+								}
+								c14One(stacked, idx, now, h, vo, req, gr, ex.name, ex.at, 0, allowMissing, false, "https://rs.example/.well-known/oauth-protected-resource")
+							}
+						}
+					}
+				}
+			}
+		}
+	})
 	// ---- sequences of different requests through one middleware: every decision depends on its own
 	// request only, and the configuration handed to RequireBearerToken is never altered
 	seq := env.NewCases(res, "request-sequences")
@@ -243,9 +277,19 @@ func c14Sequence(cases *verifx.Cases, idx int, now time.Time, req []string, gran
 	cases.Record(idx, fmt.Sprintf("sequence of %d decided independently", len(order)), len(order), desc)
 }
 
+// c14Stacked: the middleware under test runs behind another RequireBearerToken with a verifier of
+// its own (a site-wide credential check in front of a route-specific one).  The outer one admits every
+// syntactically valid credential and leaves a TokenInfo of its own in the request context; what the
+// inner one decides, answers and hands to its handler is exactly what it would without the outer one.
+var c14Stacked bool
+
 func c14One(cases *verifx.Cases, idx int, now time.Time, h c14Header, vo string, req, gr []string, exName string, exp time.Time, skew time.Duration, allowMissing, optsNil bool, url string) {
 	desc := func() string {
-		return fmt.Sprintf("header=%s verifier=%s required=%v granted=%v exp=%s skew=%v allowMissing=%v optsNil=%v url=%q", h.name, vo, req, gr, exName, skew, allowMissing, optsNil, url)
+		st := ""
+		if c14Stacked {
+			st = " behind an outer RequireBearerToken with its own verifier"
+		}
+		return fmt.Sprintf("header=%s verifier=%s required=%v granted=%v exp=%s skew=%v allowMissing=%v optsNil=%v url=%q%s", h.name, vo, req, gr, exName, skew, allowMissing, optsNil, url, st)
 	}
 	info := &TokenInfo{Scopes: gr, Expiration: exp, UserID: "u"}
 	verifierCalls := 0
@@ -285,6 +329,13 @@ func c14One(cases *verifx.Cases, idx int, now time.Time, h c14Header, vo string,
 		w.WriteHeader(http.StatusTeapot)
 	})
 	mw := RequireBearerToken(verifier, opts)
+	if c14Stacked {
+		innerMW := mw
+		outer := RequireBearerToken(func(ctx context.Context, token string, r *http.Request) (*TokenInfo, error) {
+			return &TokenInfo{Scopes: []string{"a", "b", "c", "outer"}, Expiration: now.Add(240 * time.Hour), UserID: "outer:" + token}, nil
+		}, nil)
+		mw = func(hd http.Handler) http.Handler { return outer(innerMW(hd)) }
+	}
 	obs := ""
 	// The same request is sent three times through the same middleware, the verifier handing out
 	// the same *TokenInfo (a verifier-side cache): the decision is a function of the request, the
